@@ -524,9 +524,9 @@ func RunReplay(entries map[string]func()) {
 // with symbolic leaves on one path; mode 1 also forks nil-ness/lengths at the top level.
 func SymValue[T any](name string, depth, mode int) T {
 	var out T
-	g := &symGen{mode: mode & 1, json: mode&2 != 0, fixedKeys: mode&4 != 0}
+	g := &symGen{mode: mode & 1, json: mode&2 != 0, fixedKeys: mode&4 != 0, impls: mode&8 != 0}
 	if mode&1 == 1 {
-		g.pick = Choose(countTop(reflect.TypeOf(&out).Elem()) + 1)
+		g.pick = Choose(countTop(reflect.TypeOf(&out).Elem(), g.impls) + 1)
 	}
 	g.gen(reflect.ValueOf(&out).Elem(), depth, true)
 	return out
@@ -538,25 +538,38 @@ type symGen struct {
 	pick, pos int
 	json      bool
 	fixedKeys bool
+	impls     bool
 }
 
-func countTop(t reflect.Type) int {
+// implRegistry: interface type -> the implementing type SymValue populates it with (mode bit 3).
+// Filled by generated harness code from the same go/types query the engine uses (implFor).
+var implRegistry = map[reflect.Type]reflect.Type{}
+
+// RegisterImpl declares T as the type SymValue uses for values of the interface type I.
+func RegisterImpl[I any, T any]() {
+	implRegistry[reflect.TypeOf((*I)(nil)).Elem()] = reflect.TypeOf((*T)(nil)).Elem()
+}
+
+func countTop(t reflect.Type, impls bool) int {
 	switch t.Kind() {
 	case reflect.Ptr, reflect.Slice, reflect.Map:
 		return 1
 	case reflect.Interface:
 		if t.NumMethod() > 0 {
+			if _, ok := implRegistry[t]; impls && ok {
+				return 1
+			}
 			return 0
 		}
 		return 1
 	case reflect.Struct:
 		n := 0
 		for i := 0; i < t.NumField(); i++ {
-			n += countTop(t.Field(i).Type)
+			n += countTop(t.Field(i).Type, impls)
 		}
 		return n
 	case reflect.Array:
-		return t.Len() * countTop(t.Elem())
+		return t.Len() * countTop(t.Elem(), impls)
 	}
 	return 0
 }
@@ -662,6 +675,16 @@ func (g *symGen) gen(v reflect.Value, depth int, top bool) {
 		}
 	case reflect.Interface:
 		if v.Type().NumMethod() > 0 {
+			impl, ok := implRegistry[v.Type()]
+			if !g.impls || !ok || depth <= 0 {
+				return
+			}
+			if fork && !g.populated() {
+				return
+			}
+			nv := reflect.New(impl).Elem()
+			g.gen(nv, depth, false)
+			v.Set(nv)
 			return
 		}
 		k := g.anyRR % 5
